@@ -3,6 +3,9 @@
 From Coq Require Import List Arith.
 From Pcfg Require Import Session SessionProofs.
 From PcfgGen Require Import Consts_gen.
+From Coq Require Import ZArith NArith.
+From Pcfg Require Import SessionRt SessionModel SessionModelProofs SessionGenProofs.
+From PcfgGen Require Import Session_gen.
 Import ListNotations.
 
 (* side condition, re-extracted from cracking_session.py on every run: the main
@@ -57,7 +60,115 @@ Theorem C12_refuted_prefix_for_liveness_polling :
   ~ (forall polls sch pts, exists rest, full_stream pts = out (run_session polls sch pts) ++ rest).
 Proof. exact C12_prefix_refuted. Qed.
 
+
+(* ---- translator tie: gen/Session_gen.v is the translation of the Python text of
+   CrackingSession.run and CrackingSession._save_session (lib_guesser/cracking_session.py;
+   harness/translate_session.py, redone on every run).  Every use of a collaborator (the
+   queue, the grammar object with its quit flag and OMEN counters, the save configuration and
+   its file, the keyboard thread) is an operation on an abstract world.  For EVERY world,
+   every choice of these operations, every load_session / limit / fuel, the translated run()
+   is the hand-written model SessionModel.m_run (prologue; then per iteration: pop - empty
+   queue: return without saving - read the quit flag - set: save and stop - otherwise
+   create_guesses with the limit, subtract the returned count, stop at <= 0) ---- *)
+Theorem C12_source_run_is_model :
+  forall (W Item Pt G : Type) (new_queue restore_queue : W -> W) (queue_next : W -> option Item * W)
+         (queue_update_save_config : W -> W) (item_pt : Item -> Pt)
+         (create_guesses : Pt -> bool -> option Z -> W -> sres Z * list G * W)
+         (restore_omen : Z -> W -> sres Z * list G * W) (read_should_exit : W -> bool * W)
+         (get_omen_exit : W -> bool) (get_omen_guess_num : W -> Z) (cfg_has_omen_number : W -> bool)
+         (cfg_omen_number : W -> Z) (cfg_remove_omen_number : W -> W) (cfg_set_omen_number : Z -> W -> W)
+         (write_save_file : W -> sres unit * W) (start_keypress_thread : W -> W)
+         (fuel : nat) (load_session : bool) (limit : option Z) (w : W),
+  py_cracking_run new_queue restore_queue queue_next queue_update_save_config item_pt create_guesses restore_omen
+                  read_should_exit get_omen_exit get_omen_guess_num cfg_has_omen_number cfg_omen_number
+                  cfg_remove_omen_number cfg_set_omen_number write_save_file start_keypress_thread
+                  fuel load_session limit w =
+  m_run new_queue restore_queue queue_next queue_update_save_config item_pt create_guesses restore_omen
+        read_should_exit get_omen_exit get_omen_guess_num cfg_has_omen_number cfg_omen_number
+        cfg_remove_omen_number cfg_set_omen_number write_save_file start_keypress_thread
+        fuel load_session limit w.
+Proof. exact (@cracking_run_eq). Qed.
+
+(* in the world of Session.v (SessionModel.sworld: time = atomic steps of the main loop, the
+   keyboard thread consuming the events of the schedule once started, the queue a list of
+   pre-terminals, create_guesses = emit_plain / emit_markov, the save file a log) the
+   translated run() of a new session without a limit IS run_session true, for every schedule
+   and every list of pre-terminals, whenever fuel exceeds their number (never out of fuel) *)
+Theorem C12_source_run_is_run_session :
+  forall (sch : schedule) (pts restored : list pterm) (level_rest : nat -> nat -> list nat) (l : option Z),
+  l = None \/ l = Some 0%Z -> forall (fuel : nat) (cfg : option nat), length pts < fuel ->
+  fst (fst (src_run sch pts restored level_rest fuel false l (w_init cfg None))) = SOk tt /\
+  w_outcome (src_run sch pts restored level_rest fuel false l (w_init cfg None)) = run_session true sch pts.
+Proof. exact source_run_is_run_session. Qed.
+
+(* C12_prefix / C12_quit_boundary / C12_schedule_independent for the translated source *)
+Theorem C12_source_prefix :
+  forall (sch : schedule) (pts restored : list pterm) (level_rest : nat -> nat -> list nat) (l : option Z),
+  l = None \/ l = Some 0%Z -> forall (fuel : nat) (cfg : option nat), length pts < fuel ->
+  exists rest, full_stream pts = snd (fst (src_run sch pts restored level_rest fuel false l (w_init cfg None))) ++ rest.
+Proof. exact source_prefix. Qed.
+
+Theorem C12_source_quit_boundary :
+  forall (sch : schedule) (pts restored : list pterm) (level_rest : nat -> nat -> list nat) (l : option Z),
+  l = None \/ l = Some 0%Z -> forall (fuel : nat) (cfg : option nat) (o : outcome), length pts < fuel ->
+  o = w_outcome (src_run sch pts restored level_rest fuel false l (w_init cfg None)) -> finished o = false ->
+  exists before p after, pts = before ++ p :: after /\ saved_at o = Some (pid p) /\
+    ( (omen_saved o = None /\ out o = full_stream before) \/
+      (exists b1 m j,
+          before = b1 ++ [m] /\ markov m = true /\
+          omen_saved o = Some (pid m, j) /\ 1 <= j <= length (guesses m) /\
+          out o = full_stream b1 ++ firstn j (guesses m)) ).
+Proof. exact source_quit_boundary. Qed.
+
+Theorem C12_source_schedule_independent :
+  forall (sch : schedule) (pts restored : list pterm) (level_rest : nat -> nat -> list nat) (l : option Z),
+  l = None \/ l = Some 0%Z -> forall (fuel : nat) (cfg : option nat), length pts < fuel ->
+  (forall t, ~ In EvQuitFlag (sch t)) ->
+  snd (fst (src_run sch pts restored level_rest fuel false l (w_init cfg None))) = full_stream pts.
+Proof. exact source_schedule_independent. Qed.
+
+(* the translated function computes: a plain pre-terminal, a Markov level, a plain one; 'q'
+   arrives while the second guess of the Markov level is written *)
+Example C12_source_example :
+  let pts := [plainp 0 [10; 11]; markovp 1 [20; 21; 22]; plainp 2 [30]] in
+  let sch := at_step 5 [EvQuitFlag] quiet in
+  w_outcome (src_run sch pts [] (fun _ _ => []) 4 false None (w_init None None)) =
+    {| out := [10; 11; 20; 21]; saved_at := Some 2; omen_saved := Some (1, 2); finished := false |} /\
+  run_session true sch pts =
+    {| out := [10; 11; 20; 21]; saved_at := Some 2; omen_saved := Some (1, 2); finished := false |} /\
+  sw_saves (snd (src_run sch pts [] (fun _ _ => []) 4 false None (w_init None None))) = [(None, None); (Some 2, Some 2)].
+Proof. exact session_world_example. Qed.
+
+
+(* ---- the keyboard thread: gen/Session_gen.v also holds the translation of keypress.  In the
+   world of the thread (SessionModel.kworld: the lines input() will return, each with whether
+   stderr still works while it is handled, or an error of input(); the end of the list is end of
+   file) the translated function ends for every list of inputs (fuel above their number is never
+   exhausted), writes nothing to stdout, and leaves pcfg.should_exit exactly as the events
+   [kp_trace] of Session.v say under h_step: only a line 'q' - read while the main thread is
+   alive and handled while stderr works - sets the flag, and the thread ends right after it;
+   end of file, an error of input(), a dead main thread and a failing print to stderr end
+   the thread WITHOUT setting the flag (the R5 repair) ---- *)
+Theorem C12_source_keypress_is_model : forall (fuel : nat) (w : kworld), length (kw_inputs w) < fuel ->
+  exists w', src_keypress fuel w = (SOk tt, [], w') /\
+    kw_flag w' = should_exit (h_steps {| alive := true; should_exit := kw_flag w |}
+                                      (kp_trace (kw_main_alive w) (kw_inputs w))) /\
+    alive (h_steps {| alive := true; should_exit := kw_flag w |} (kp_trace (kw_main_alive w) (kw_inputs w))) = false.
+Proof. exact keypress_is_trace. Qed.
+
+Example C12_source_keypress_example :
+  src_keypress 5 (mkK [KLine [] true; KLine [104%N] true; KLine [113%N] true; KLine [] true] true true false)
+  = (SOk tt, [], mkK [KLine [] true] true true true) /\
+  src_keypress 5 (mkK [KLine [] true; KLine [113%N] false] true true false) = (SOk tt, [], mkK [] false true false) /\
+  kp_trace true [KLine [] true; KLine [104%N] true; KLine [113%N] true; KLine [] true]
+  = [EvStatus; EvHelp; EvQuitFlag; EvThreadEnds].
+Proof. exact keypress_example. Qed.
+
 Print Assumptions C12_schedule_independent.
 Print Assumptions C12_prefix.
 Print Assumptions C12_quit_boundary.
 Print Assumptions C12_finished.
+Print Assumptions C12_source_run_is_model.
+Print Assumptions C12_source_run_is_run_session.
+Print Assumptions C12_source_quit_boundary.
+Print Assumptions C12_source_keypress_is_model.
